@@ -23,7 +23,7 @@ CHECKS.update({
         note="Crash = SIGKILL (page cache survives; power loss not modelled). Points are Python lines of job.py/result.py (+filelock), sleeps, write chunks, body points; a line doing several file operations is atomic. Real filelock stale-marker recovery against really dead PIDs.",
         technique="deterministic simulation: crash-point enumeration with SIGKILL of lockstep-stepped real processes, torn writes, simulated clock", ref="8/C12"),
     "C14": dict(engine="simloop", category="exploration",
-        text="Generated workflows (2-6 nodes, splits, nesting) with a Chooser-picked subset of failing jobs run on the simulated pool under seeded schedules that interleave workers with the polling loop at line granularity (so a job is seen 'running' before it fails). Oracle from tokens/events: independent jobs executed, data-dependent jobs never executed, submission fails, error text names every failed job.",
+        text="Generated workflows (2-6 nodes, splits, nesting) with a Chooser-picked subset of failing jobs run on the simulated pool under seeded schedules that interleave workers with the polling loop at line granularity (so a job is seen 'running' before it fails). Oracle from tokens/events: independent jobs executed (independence judged between nodes, as pydra resolves it; sibling states of a failing job included), data-dependent jobs never executed, submission fails, error text names every failed job.",
         note=SIMLOOP_NOTE + " 'Depends' is judged both at node and data level; jobs only node-level dependent are unconstrained.",
         technique="deterministic simulation: virtual-time asyncio loop + simulated process pool, seeded schedule search with injected job failures", ref="8/C14"),
     "C15": dict(engine="simloop", category="exploration",
@@ -46,7 +46,7 @@ CHECKS.update({
 HIST_NOTE = "Histories run through pydra's public API in one process (process-global pydra state reset between cases); 'cf' submissions run on the simloop engine; sequential submissions run under a virtual clock (a sleep-forever becomes a hang verdict). Sampling of histories, not enumeration."
 CHECKS.update({
     "C06": dict(engine="histsim", category="exploration",
-        text="Finite pool of variant pairs differing in exactly one semantically relevant aspect (function body edited on disk, closure value; shell executable/argstr/position/sep/formatter; input content/type/nesting; numpy shape/dtype/content) x seeded histories of 2-8 submissions of both members and unrelated tasks into one cache root (orders, repeats, reruns, both workers); oracle: every returned output equals executing now (function called / argv run directly) and the pair's cache identities differ.",
+        text="Finite pool of variant pairs differing in exactly one semantically relevant aspect (function body edited on disk, closure value; shell executable/argstr/position/sep/formatter; input content/type/nesting, path vs str, values of user classes (enum members, private/public attributes, slots, dataclass, attrs fields, same state in two classes); numpy shape/dtype/content/memory layout/strides/byte order) x seeded histories of 2-8 submissions of both members and unrelated tasks into one cache root (orders, repeats, reruns, both workers); oracle: every returned output equals executing now (function called / argv run directly) and the pair's cache identities differ.",
         note=HIST_NOTE + " The pair pool is finite and listed in the evidence; aspects outside it are not covered.",
         technique="deterministic simulation: seeded submission histories against an executable value model", ref="8/C06"),
     "C07": dict(engine="sessim", category="exploration",
@@ -54,7 +54,7 @@ CHECKS.update({
         note="Nothing is stubbed inside a session; the searched dimension is the hash seed, insertion order, pickling and cache-root path. Sampling of values from a generator.",
         technique="deterministic simulation: interpreter sessions as nodes sharing only durable state, seeded programs and hash seeds", ref="8/C07"),
     "C29": dict(engine="sessim", category="exploration",
-        text="(task, submitter configuration) pairs are built and cloudpickled in one fresh interpreter, unpickled/compared/run (load_and_run) in a second with another hash seed, and the result file is read back in a third: equal checksum, equal public submitter/worker state (debug, cf, slurm, sge configurations, read-only caches, audit flags, max_concurrent), outputs equal to an in-session run. Every job of the simloop checks additionally crosses cp.dumps -> worker process -> result file -> parent.",
+        text="(task, submitter configuration) pairs are built and cloudpickled in one fresh interpreter, unpickled/compared/run (load_and_run) in a second with another hash seed, and the result file is read back in a third: equal checksum, equal public submitter/worker state (debug, cf, slurm, sge configurations, read-only caches, audit flags, max_concurrent), outputs equal to an in-session run, and the same hook calls (logging hooks installed on half of the jobs) as in the building session. Every job of the simloop checks additionally crosses cp.dumps -> worker process -> result file -> parent.",
         note="Nothing is stubbed inside a session. 'Public state' is the worker's attrs fields (minus loop/pool/internal dicts) and the submitter's configuration attributes.",
         technique="deterministic simulation: interpreter sessions as nodes exchanging pickled jobs and result files", ref="8/C29"),
     "C09": dict(engine="histsim", category="exploration",
@@ -62,17 +62,17 @@ CHECKS.update({
         note="Kernel timestamps of tracked inodes and time.time/datetime.now are replaced by the simulated clock; POSIX timestamp semantics assumed (mtime settable, ctime not).",
         technique="deterministic simulation: simulated file-system clock, seeded operation histories vs cache-free reference hash", ref="8/C09"),
     "C11": dict(engine="histsim", category="exploration",
-        text="Seeded histories of 3-8 submissions over two cache roots and three read-only locations with random rerun/propagate_rerun flags and read-only lists, tasks and workflows sharing inner identities, both workers, plus residues left by really SIGKILLing a process that executes a job at a seeded point; reference model: per location the identities with a complete successful result; oracle: executions per identity, outputs, and byte-identical trees of every location that is not the cache root.",
+        text="Seeded histories of 3-8 submissions over two cache roots and three read-only locations with random rerun/propagate_rerun flags and read-only lists, tasks and workflows sharing inner identities, both workers, plus residues left by really SIGKILLing a process that executes a job at a seeded point (with or without the dead process's lock/info files left in place); reference model: per location the identities with a complete successful result; oracle: executions per identity, outputs, and byte-identical trees of every location that is not the cache root.",
         note=HIST_NOTE, technique="deterministic simulation: seeded histories + crash residues vs executable store model", ref="8/C11"),
     "C13": dict(engine="histsim", category="exploration",
-        text="Seeded histories over identities that fail in different ways (python raise always / first attempt only, shell non-zero exit always / first attempt only, dict return lacking a declared output, workflow with a failing node) and succeeding variants, both workers; oracle vs store model: failing executions raise and carry the recorded failure, are never stored, the next submission executes again and a now-succeeding body returns the value model's outputs, never NOTHING.",
+        text="Seeded histories over identities that fail in different ways (python raise always / first attempt only, shell non-zero exit or death by signal always / first attempt only, dict return lacking a declared output, workflow with a failing node) and succeeding variants, both workers; oracle vs store model: failing executions raise and carry the recorded failure, are never stored, the next submission executes again and a now-succeeding body returns the value model's outputs, never NOTHING.",
         note=HIST_NOTE, technique="deterministic simulation: seeded histories with injected body failures vs executable store model", ref="8/C13"),
     "C28": dict(engine="simloop+cluster", category="exploration",
-        text="The real SlurmWorker/SgeWorker run on the virtual-time loop against a fake scheduler reached through asyncio.create_subprocess_exec: seeded user argument strings and per-job response scripts (pending, running, completed, failed, cancelled/timeout/preempted/node-fail/evicted with the real payload process SIGKILLed at a seeded point, further lives after requeue, lagging accounting); oracle: complete iff the scheduler says completed and the result loads, failed when it says failed, requeued/resubmitted (not failed) after a kill, user job-name/output/error honoured exactly once.",
+        text="The real SlurmWorker/SgeWorker run on the virtual-time loop against a fake scheduler reached through asyncio.create_subprocess_exec: seeded user argument strings and per-job response scripts (pending, running, completed, failed, cancelled/timeout/preempted/node-fail/evicted with the real payload process SIGKILLed at a seeded point or inside a seeded file write (torn info/job/result records), further lives after requeue, lagging accounting); oracle: complete iff the scheduler says completed and the result loads, failed when it says failed, requeued/resubmitted (not failed) after a kill, user job-name/output/error honoured exactly once.",
         note="The fake CLIs encode my reading of the sbatch/squeue/sacct/scontrol/qsub/qstat/qacct formats as parsed by the workers' regexes (stub). The payload extracted from the generated batch script runs the real load_and_run in a lockstep actor.",
         technique="deterministic simulation: virtual-time loop + simulated batch scheduler with fault scripts (kills, lagging accounting)", ref="8/C28"),
     "C30": dict(engine="histsim", category="exploration",
-        text="Seeded histories of construct(lazy subset)/run operations over generated workflow definitions and value sets in one process vs the same single operation in a pristine process; oracle: equal graph descriptions and outputs. No fault space: history search over process-global construction caches.",
+        text="Seeded histories of construct(lazy subset)/run/reuse operations (reuse: one task object per definition given other inputs by assignment, attrs.evolve or copy, then constructed or run) over generated workflow definitions and value sets in one process vs the same single operation in a pristine process; oracle: equal graph descriptions and outputs. No fault space: history search over process-global construction caches.",
         note=HIST_NOTE, technique="deterministic simulation: seeded operation histories vs pristine-process reference", ref="8/C30"),
     "C35": dict(engine="histsim", category="fault_enumeration",
         text="For each scenario (fresh, failing, cache hit, rerun, workflow; with/without PROV auditing) every fallible seam call of the job path recorded by a dry run (hooks, messenger sends, mkdir/rmtree/chdir/unlink/lock creation/every write) gets an exception injected, exhaustively; afterwards cwd restored, no info file or job lock left, job record and result loadable with a matching errored flag, task hooks once per execution; plus seeded fault-free histories with counting hooks.",
